@@ -759,6 +759,19 @@ def rule_no_carried_static_state(prog, fixture=False):
                   "`static %s` is modified at %s and so carries data from one call to the next - across different "
                   "reader objects and image files: a later image can be answered from an earlier one's data" %
                   (v.get("n"), fn.loc(written[0])))
+    # static data members: one object shared by every instance of the class (every drive, every image)
+    recs = {notpl(q_) for q_ in prog.records}
+    for gid, gl in prog.globals.items():
+        q = notpl(gl.get("q") or "")
+        owner = q.rsplit("::", 1)[0] if "::" in q else ""
+        if owner not in recs or gl.get("const") or gl.get("constexpr"):
+            continue
+        loc = gid.split("|")[1] if "|" in gid else "?"
+        if "/tests/" in loc:
+            continue
+        r.add("static member %s" % q, loc, False,
+              "`%s` is a non-const static data member: every object of %s shares it, so what one drive or image put there "
+              "is seen by the next (a cache keyed by sector number only answers for the wrong disc)" % (q, owner))
     return r
 
 
